@@ -58,21 +58,31 @@ Definition refines (ar : ares) (r : res) : Prop :=
   repr (fst ar) (fst r) /\ snd r = snd ar /\ awf (fst ar) /\ okerr (snd ar).
 
 (* ---------------------------------------------------------------- end_label *)
+Lemma mk_refines a' st' r : repr a' st' -> awf a' -> okerr r -> refines (a', r) (st', r).
+Proof. unfold refines. cbn [fst snd]. auto. Qed.
+
+Lemma repr_some a c ph : opn a = Some c ->
+  repr a (mk_b (wire_rel (closed a) ++ ph :: c) (Some (wire_len (closed a)))).
+Proof. intros E. unfold repr. rewrite E. eauto. Qed.
+
+Lemma repr_none a : opn a = None -> repr a (mk_b (wire_rel (closed a)) None).
+Proof. intros E. unfold repr. rewrite E. reflexivity. Qed.
+
 Lemma end_refines a st : awf a -> repr a st -> refines (aend a, Ok tt) (b_end_label st).
 Proof.
-  intros [Hc Ho] Hr. unfold refines. cbn [fst snd].
-  assert (Hw := awf_aend a (conj Hc Ho)).
-  unfold repr in Hr. unfold b_end_label, aend in *. destruct (opn a) as [c|] eqn:E.
+  intros Hw Hr. assert (Hw' := awf_aend a Hw). destruct Hw as [Hc Ho].
+  unfold repr in Hr. unfold b_end_label. destruct (opn a) as [c|] eqn:E.
   - destruct Hr as [ph ->]. cbn [head buf]. destruct Ho as [[Hl1 Hl2] Hb].
     rewrite app_length, wire_rel_length. cbn [length]. unfold end_label_sub.
     destruct (Nat.ltb_spec (wire_len (closed a) + S (length c)) (wire_len (closed a) + 1)); [lia|].
     destruct (Nat.leb_spec (wire_len (closed a) + S (length c)) (wire_len (closed a))); [lia|].
-    cbn [fst snd]. repeat split; auto.
-    unfold repr. cbn [opn closed]. rewrite wire_rel_snoc.
+    apply mk_refines; [|exact Hw'|exact I].
+    unfold repr, aend. rewrite E. cbn [opn closed]. rewrite wire_rel_snoc.
     rewrite <- (wire_rel_length (closed a)), set_nth_app. rewrite wire_rel_length.
     replace (wire_len (closed a) + S (length c) - wire_len (closed a) - 1)%nat with (length c) by lia.
     rewrite N.mod_small by lia. reflexivity.
-  - subst st. cbn [head fst snd]. repeat split; auto. unfold repr. rewrite E. reflexivity.
+  - subst st. cbn [head]. apply mk_refines; [|exact Hw'|exact I].
+    unfold aend. rewrite E. apply repr_none. exact E.
 Qed.
 
 Lemma end_ok a st : awf a -> repr a st -> exists st', b_end_label st = (st', Ok tt) /\ repr (aend a) st'.
@@ -85,48 +95,47 @@ Qed.
 Lemma push_refines cap a st ch : awf a -> repr a st -> (ch < 256)%N ->
   refines (a_push cap a ch) (b_push cap st ch).
 Proof.
-  intros [Hc Ho] Hr Hch. pose proof (repr_len a st Hr) as Hlen.
-  unfold refines, b_push, a_push. rewrite Hlen.
+  intros Hw Hr Hch. pose proof (repr_len a st Hr) as Hlen. pose proof Hw as [Hc Ho].
+  unfold b_push, a_push. rewrite Hlen.
   unfold push_total_ge, push_total_lim. rewrite exceeds_ge.
-  destruct (Nat.leb_spec 254 (alen a)) as [Hge|Hlt]; cbn [fst snd].
-  { repeat split; auto. }
+  destruct (Nat.leb_spec 254 (alen a)) as [Hge|Hlt].
+  { apply mk_refines; [assumption|assumption|exact I]. }
   unfold repr in Hr. destruct (opn a) as [c|] eqn:E.
   - destruct Hr as [ph ->]. cbn [head buf] in *. destruct Ho as [[Hl1 Hl2] Hb].
     assert (Ha : alen a = (wire_len (closed a) + S (length c))%nat) by (unfold alen; rewrite E; reflexivity).
     destruct (Nat.ltb_spec (alen a) (wire_len (closed a))); [lia|].
     unfold push_label_ge, push_label_lim, label_max. rewrite exceeds_gt.
-    destruct (Nat.ltb_spec 63 (alen a - wire_len (closed a))); destruct (Nat.leb_spec 63 (length c)); try lia; cbn [fst snd].
-    { repeat split; auto. unfold repr. rewrite E. eauto. }
+    destruct (Nat.ltb_spec 63 (alen a - wire_len (closed a))); destruct (Nat.leb_spec 63 (length c)); try lia.
+    { apply mk_refines; [apply repr_some; assumption|assumption|exact I]. }
     rewrite (raw_append_fits cap a) by exact Hlen. cbn [length].
-    destruct (fits cap a 1); cbn [fst snd].
-    + repeat split; auto; cbn [opn closed].
+    destruct (fits cap a 1).
+    + apply mk_refines; [| |exact I].
       * unfold repr. cbn [opn closed]. exists ph. rewrite <- app_assoc. reflexivity.
-      * rewrite app_length. cbn [length]. lia.
-      * rewrite app_length. cbn [length]. lia.
-      * apply wf_bytes_app. split; auto. repeat constructor. exact Hch.
-    + repeat split; auto. unfold repr. rewrite E. eauto.
+      * split; cbn [opn closed]; [assumption|]. split.
+        -- rewrite app_length. cbn [length]. lia.
+        -- apply wf_bytes_app. split; auto. repeat constructor. exact Hch.
+    + apply mk_refines; [apply repr_some; assumption|assumption|exact I].
   - subst st. cbn [head buf] in *.
     assert (Ha : alen a = wire_len (closed a)) by (unfold alen; rewrite E; lia).
     unfold push_new_ge, push_new_lim. rewrite exceeds_ge.
-    destruct (Nat.leb_spec 253 (alen a)); cbn [fst snd].
-    { repeat split; auto. unfold repr. rewrite E. reflexivity. }
+    destruct (Nat.leb_spec 253 (alen a)).
+    { apply mk_refines; [apply repr_none; assumption|assumption|exact I]. }
     rewrite (raw_append_fits cap a) by exact Hlen. cbn [length].
-    destruct (fits cap a 2); cbn [fst snd].
-    + repeat split; auto; cbn [opn closed].
-      * unfold repr. cbn [opn closed]. exists 0%N. rewrite Hlen, Ha. reflexivity.
-      * cbn [length]. lia.
-      * cbn [length]. lia.
-      * repeat constructor. exact Hch.
-    + unfold push_head_first. repeat split; auto. unfold repr. rewrite E. reflexivity.
+    destruct (fits cap a 2).
+    + apply mk_refines; [| |exact I].
+      * unfold repr. cbn [opn closed]. exists 0%N. rewrite Ha. reflexivity.
+      * split; cbn [opn closed]; [assumption|]. split; [cbn [length]; lia|].
+        repeat constructor. exact Hch.
+    + unfold push_head_first. apply mk_refines; [apply repr_none; assumption|assumption|exact I].
 Qed.
 
 (* ---------------------------------------------------------------- append_slice *)
 Lemma slice_refines cap a st s : awf a -> repr a st -> wf_bytes s ->
   refines (a_slice cap a s) (b_append_slice cap st s).
 Proof.
-  intros [Hc Ho] Hr Hs. pose proof (repr_len a st Hr) as Hlen.
-  unfold refines, b_append_slice, a_slice.
-  destruct s as [|x s']; cbn [fst snd]; [repeat split; auto|].
+  intros Hw Hr Hs. pose proof (repr_len a st Hr) as Hlen. pose proof Hw as [Hc Ho].
+  unfold b_append_slice, a_slice.
+  destruct s as [|x s']; [apply mk_refines; [assumption|assumption|exact I]|].
   set (s := x :: s') in *. rewrite Hlen.
   unfold repr in Hr. destruct (opn a) as [c|] eqn:E.
   - destruct Hr as [ph ->]. cbn [head buf] in *. destruct Ho as [[Hl1 Hl2] Hb].
@@ -135,34 +144,34 @@ Proof.
     rewrite !exceeds_gt.
     destruct (Nat.ltb_spec (alen a) (wire_len (closed a) + 1)); [lia|].
     replace (alen a - wire_len (closed a) - 1)%nat with (length c) by lia.
-    destruct (Nat.ltb_spec 63 (length c + length s)); cbn [fst snd].
-    { repeat split; auto. unfold repr. rewrite E. eauto. }
-    destruct (Nat.ltb_spec 254 (alen a + length s)); cbn [fst snd].
-    { repeat split; auto. unfold repr. rewrite E. eauto. }
+    destruct (Nat.ltb_spec 63 (length c + length s)).
+    { apply mk_refines; [apply repr_some; assumption|assumption|exact I]. }
+    destruct (Nat.ltb_spec 254 (alen a + length s)).
+    { apply mk_refines; [apply repr_some; assumption|assumption|exact I]. }
     rewrite (raw_append_fits cap a) by exact Hlen.
-    destruct (fits cap a (length s)); cbn [fst snd].
-    + repeat split; auto; cbn [opn closed].
+    destruct (fits cap a (length s)).
+    + apply mk_refines; [| |exact I].
       * unfold repr. cbn [opn closed]. exists ph. rewrite <- app_assoc. reflexivity.
-      * rewrite app_length. lia.
-      * rewrite app_length. lia.
-      * apply wf_bytes_app. split; auto.
-    + repeat split; auto. unfold repr. rewrite E. eauto.
+      * split; cbn [opn closed]; [assumption|]. split.
+        -- rewrite app_length. lia.
+        -- apply wf_bytes_app. split; auto.
+    + apply mk_refines; [apply repr_some; assumption|assumption|exact I].
   - subst st. cbn [head buf] in *.
     assert (Ha : alen a = wire_len (closed a)) by (unfold alen; rewrite E; lia).
     unfold asl_new_label_ge, asl_new_label_lim, label_max, asl_new_total_ge, asl_new_total_lim, asl_placeholder.
     rewrite !exceeds_gt.
-    destruct (Nat.ltb_spec 63 (length s)); cbn [fst snd].
-    { repeat split; auto. unfold repr. rewrite E. reflexivity. }
-    destruct (Nat.ltb_spec 254 (alen a + length s)); cbn [fst snd].
-    { repeat split; auto. unfold repr. rewrite E. reflexivity. }
+    destruct (Nat.ltb_spec 63 (length s)).
+    { apply mk_refines; [apply repr_none; assumption|assumption|exact I]. }
+    destruct (Nat.ltb_spec 254 (alen a + length s)).
+    { apply mk_refines; [apply repr_none; assumption|assumption|exact I]. }
     destruct (Nat.ltb_spec (63 + 1) (length s + 1)); [lia|].
-    rewrite (raw_append_fits cap a) by exact Hlen. cbn [length].
-    destruct (fits cap a (S (length s'))) eqn:F; cbn [fst snd].
-    + repeat split; auto; cbn [opn closed].
-      * unfold repr. cbn [opn closed]. exists 0%N. rewrite Hlen, Ha. reflexivity.
-      * subst s. cbn [length]. lia.
-      * lia.
-    + repeat split; auto. unfold repr. rewrite E. reflexivity.
+    rewrite (raw_append_fits cap a) by exact Hlen.
+    change (length (0%N :: s)) with (S (length s)).
+    destruct (fits cap a (S (length s))).
+    + apply mk_refines; [| |exact I].
+      * unfold repr. cbn [opn closed]. exists 0%N. rewrite Ha. reflexivity.
+      * split; cbn [opn closed]; [assumption|]. split; [subst s; cbn [length] in *; lia|assumption].
+    + apply mk_refines; [apply repr_none; assumption|assumption|exact I].
 Qed.
 
 Lemma a_push_err cap a ch e : snd (a_push cap a ch) = Err e -> fst (a_push cap a ch) = a.
@@ -203,10 +212,9 @@ Proof.
   destruct (a_slice cap (aend a) l) as [a2 ar2] eqn:EA. cbn [fst snd] in *. subst r2.
   destruct ar2 as [[]|e|p|]; try contradiction.
   - apply end_refines; assumption.
-  - unfold refines. cbn [fst snd]. repeat split; auto.
-    unfold append_label_restores_head.
+  - unfold append_label_restores_head.
     assert (a2 = aend a) by (pose proof (a_slice_err cap (aend a) l e) as H; rewrite EA in H; apply H; reflexivity).
-    subst a2. apply restore_head; assumption.
+    subst a2. apply mk_refines; [apply restore_head; assumption|assumption|exact I].
 Qed.
 
 (* ---------------------------------------------------------------- pushes, dec, hex *)
@@ -220,14 +228,14 @@ Lemma pushes_refines cap l : forall a st, awf a -> repr a st -> wf_bytes l ->
   refines (a_pushes cap a l) (b_pushes cap st l).
 Proof.
   induction l as [|ch l IH]; intros a st Hw Hr Hl.
-  - unfold refines. cbn. repeat split; auto; apply Hw.
+  - apply mk_refines; [assumption|assumption|exact I].
   - inversion Hl as [|? ? Hch Hl']; subst. cbn [a_pushes b_pushes].
     pose proof (push_refines cap a st ch Hw Hr Hch) as (R1 & R2 & R3 & R4).
     destruct (b_push cap st ch) as [st1 r1]. destruct (a_push cap a ch) as [a1 ar1].
     cbn [fst snd] in *. subst r1. unfold and_then, a_then.
     destruct ar1 as [[]|e|p|]; try contradiction.
     + apply IH; assumption.
-    + unfold refines. cbn [fst snd]. auto.
+    + apply mk_refines; [assumption|assumption|exact I].
 Qed.
 
 Lemma then_end_refines ar r :
@@ -237,7 +245,7 @@ Proof.
   cbn [fst snd] in *. subst r1. unfold and_then, a_then.
   destruct ar1 as [[]|e|p|]; try contradiction.
   - apply end_refines; assumption.
-  - unfold refines. cbn [fst snd]. auto.
+  - apply mk_refines; [assumption|assumption|exact I].
 Qed.
 
 Lemma and_then_ok st k : and_then (st, Ok tt) k = k st.
@@ -290,8 +298,8 @@ Proof.
   assert (H : (N.land v 15 < 16)%N).
   { change 15%N with (N.ones 4). rewrite N.land_ones. apply N.mod_upper_bound. discriminate. }
   remember (N.land v 15) as d. clear Heqd.
-  assert (Hd : d = 0 \/ d = 1 \/ d = 2 \/ d = 3 \/ d = 4 \/ d = 5 \/ d = 6 \/ d = 7 \/ d = 8 \/ d = 9 \/
-          d = 10 \/ d = 11 \/ d = 12 \/ d = 13 \/ d = 14 \/ d = 15)%N by lia.
+  assert (Hd : (d = 0 \/ d = 1 \/ d = 2 \/ d = 3 \/ d = 4 \/ d = 5 \/ d = 6 \/ d = 7 \/ d = 8 \/ d = 9 \/
+          d = 10 \/ d = 11 \/ d = 12 \/ d = 13 \/ d = 14 \/ d = 15)%N) by lia.
   repeat (destruct Hd as [->|Hd]; [reflexivity|]). subst d. reflexivity.
 Qed.
 
@@ -350,15 +358,15 @@ Proof.
   pose proof (awf_aend a Hw) as Hw1. pose proof (opn_aend a) as Ho1.
   unfold append_name_ge, append_name_lim, append_name_tmp_cap. rewrite exceeds_gt.
   destruct (Nat.ltb_spec 254 (alen (aend a) + wire_len nm)).
-  { unfold refines. cbn [fst snd]. repeat split; auto; try apply Hw. apply restore_head; assumption. }
+  { apply mk_refines; [apply restore_head; assumption|assumption|exact I]. }
   rewrite compose_labels_fits by (auto; cbn [length]; lia). cbn [app].
   rewrite (raw_append_fits cap (aend a)) by exact Hlen. rewrite wire_rel_length.
   destruct (fits cap (aend a) (wire_len nm)).
-  - unfold refines. cbn [fst snd]. repeat split; auto.
-    + unfold repr in *. rewrite Ho1 in Hr1. subst st1. cbn [opn closed buf head].
-      rewrite wire_rel_app. reflexivity.
-    + cbn [closed]. apply Forall_app. split; [apply Hw1|assumption].
-  - unfold refines. cbn [fst snd]. repeat split; auto; try apply Hw. apply restore_head; assumption.
+  - unfold repr in Hr1. rewrite Ho1 in Hr1. subst st1. cbn [buf head].
+    apply mk_refines; [| |exact I].
+    + unfold repr. cbn [opn closed]. rewrite wire_rel_app. reflexivity.
+    + split; cbn [opn closed]; [|exact I]. apply Forall_app. split; [apply Hw1|assumption].
+  - apply mk_refines; [apply restore_head; assumption|assumption|exact I].
 Qed.
 
 (* ---------------------------------------------------------------- step / run *)
